@@ -483,6 +483,30 @@ float4 PSMAIN(float2 i_uv : TEXCOORD, float4 i_colour : COLOUR, float i_n : Norm
 Pipeline P { VertexShader = VSMAIN; PixelShader = PSMAIN; }
 "#,
     );
+    // a call chain of eight functions between the entry point and the functions that touch the resources / statics
+    // (a transitive closure computed in passes needs as many passes as the hash order makes it need)
+    add(
+        "deep-call-chain",
+        Mode::All,
+        r#"
+RWByteAddressBuffer g_out;
+ByteAddressBuffer g_in;
+Texture2D<float4> g_tex;
+static uint s_count = 0;
+uint leaf_a(uint x) { s_count += 1; return g_in.Load(x); }
+uint leaf_b(uint x) { return (uint)g_tex.Load(int3(0, 0, 0)).x + x; }
+uint c7(uint x) { return leaf_a(x) + 7; }
+uint c6(uint x) { return c7(x) + leaf_b(x); }
+uint c5(uint x) { return c6(x) + 5; }
+uint c4(uint x) { return c5(x) + 4; }
+uint c3(uint x) { return c4(x) + 3; }
+uint c2(uint x) { return c3(x) + 2; }
+uint c1(uint x) { return c2(x) + 1; }
+[numthreads(1, 1, 1)]
+void CSMAIN(uint3 id : SV_DispatchThreadID) { g_out.Store(0, c1(id.x) + s_count); }
+Pipeline P { ComputeShader = CSMAIN; }
+"#,
+    );
     // define lists handed to compile(): several entries, one name under two spellings, several invalid entries
     let prog = "#ifndef SCALE\n#define SCALE 1.0\n#endif\nfloat f(float x) { return x * SCALE + OFFSET + BIAS; }\n";
     let lists: [(&str, &[(&str, &str)]); 5] = [
@@ -694,6 +718,11 @@ fn history_inputs() -> Vec<HInput> {
         h("err-backend-msl-double", vec![("main.rssl", "RWByteAddressBuffer g_out;\n[numthreads(1, 1, 1)]\nvoid CSMAIN() { double d = 1.0L; g_out.Store(0, (uint)d); }\nPipeline P { ComputeShader = CSMAIN; }\n")], Mode::All),
         h("err-undeclared-pasted-identifier", vec![("main.rssl", "#define CAT(a, b) a ## b\nfloat f() { return CAT(un, known); }\n")], Mode::NoPipeline),
         h("ok-pasted-identifiers", vec![("main.rssl", "#define CAT(a, b) a ## b\nfloat CAT(g, 1)() { return 1.0; }\nfloat f() { return CAT(g, 1)(); }\n")], Mode::NoPipeline),
+        // the same raw byte offset of the diagnostic at different file / line / column positions
+        h("err-at-offset-46-on-line-1", vec![("main.rssl", "float ffffffffffffffffffffffffffff() { return undefined_name; }\n")], Mode::NoPipeline),
+        h("err-at-offset-46-on-line-3", vec![("main.rssl", "float a;\nfloat bbbbbbbbbb;\nfloat f() { return undefined_name; }\n")], Mode::NoPipeline),
+        h("err-at-offset-46-on-line-2", vec![("main.rssl", "static const float kkkkkkkkk = 1;\nfloat f() { undefined_name; }\n")], Mode::NoPipeline),
+        h("err-at-offset-46-of-an-included-file", vec![("main.rssl", "#include \"h.rssl\"\nfloat g() { return 1.0; }\n"), ("h.rssl", "float cccccccccccccccccccccccccccc() { return undefined_name; }\n")], Mode::NoPipeline),
         h("err-pipeline-unknown-entry", vec![("main.rssl", "Pipeline P { ComputeShader = nothing; }\n")], Mode::All),
     ]
 }
